@@ -65,6 +65,22 @@ func (s *xSpec) kidTokens(out *[]xml.Token) {
 	}
 }
 
+// failingReader fails (for good) when it is asked for token number `after`.
+type failingReader struct {
+	yieldReader
+	after  int
+	failed bool
+}
+
+func (r *failingReader) Token() (xml.Token, error) {
+	if r.i >= r.after || r.failed {
+		simrt.Yield("tok")
+		r.failed = true
+		return nil, errBoom
+	}
+	return r.yieldReader.Token()
+}
+
 // yieldReader hands out tokens one at a time with a scheduling point before
 // each, so that other tasks may try to get in between two tokens of one element.
 type yieldReader struct {
@@ -206,6 +222,10 @@ type c05Call struct {
 	err    error
 	done   bool
 	known  string // non-empty: signature suffix for a clause that is evaluated separately
+	// expectFail: the call's own token reader fails part of the way through; the call must fail, and must not disturb
+	// the elements of the calls that succeed
+	expectFail bool
+	twin       *c05Call // SendElement-twice: the second call made with the very same start element value
 	alt    *xSpec // EncodeElement: the value's own encoding (what goes out if the supplied start is ignored)
 }
 
@@ -411,6 +431,10 @@ func runC05(rc *RC) {
 	}
 	nCallers := ch.Range("workload", 2, 5)
 	kinds := []string{"Send", "SendElement", "Encode", "EncodeElement", "SendIQElement", "SendMessageElement", "SendPresenceElement", "EncodeIQ", "SendIQ-get", "TokenWriter", "Encode", "Send"}
+	if ch.Chance("workload", 1, 3) {
+		// callers whose own payload reader fails half way, and callers that use one start element value for two calls
+		kinds = append(kinds, "Send-failing-reader", "SendElement-failing-reader", "SendElement-twice", "SendElement-nameless-start")
+	}
 	var calls []*c05Call
 	var plans [][]*c05Call
 	mk := 0
@@ -421,6 +445,11 @@ func runC05(rc *RC) {
 			c := &c05Call{kind: kinds[ch.Int("workload", len(kinds))], marker: fmt.Sprintf("K%dk", mk)}
 			pl = append(pl, c)
 			calls = append(calls, c)
+			if c.kind == "SendElement-twice" {
+				mk++
+				c.twin = &c05Call{kind: "SendElement-twice/2nd", marker: fmt.Sprintf("K%dk", mk)}
+				calls = append(calls, c.twin)
+			}
 		}
 		plans = append(plans, pl)
 	}
@@ -439,6 +468,62 @@ func runC05(rc *RC) {
 		case "SendElement":
 			c.spec = genSpec(rc, e.NS, c.marker, false, big)
 			c.err = s.SendElement(ctx, kidsReader(c.spec), c.spec.start())
+		case "Send-failing-reader", "SendElement-failing-reader":
+			c.spec = genSpec(rc, e.NS, c.marker, false, big)
+			c.expectFail = true
+			var toks []xml.Token
+			if c.kind == "Send-failing-reader" {
+				c.spec.tokens(&toks)
+			} else {
+				c.spec.kidTokens(&toks)
+			}
+			r := &failingReader{yieldReader: yieldReader{toks: toks}, after: ch.Int("workload", len(toks)+1)}
+			if c.kind == "Send-failing-reader" {
+				c.err = s.Send(ctx, r)
+			} else {
+				c.err = s.SendElement(ctx, r, c.spec.start())
+			}
+			if r.failed {
+				rc.Fire("reader-error")
+			} else {
+				c.expectFail = false // the reader was never asked for the token it fails on (it had delivered everything)
+			}
+		case "SendElement-nameless-start":
+			// a start element without a name cannot be written: the call fails, and that is all
+			c.spec = genSpec(rc, e.NS, c.marker, false, false)
+			c.expectFail = true
+			c.err = s.SendElement(ctx, kidsReader(c.spec), xml.StartElement{Attr: c.spec.start().Attr})
+			rc.Fire("nameless-start")
+		case "SendElement-twice":
+			// one start element value (and so one attribute slice) used for two calls in a row
+			c.spec = genSpec(rc, e.NS, c.marker, false, false)
+			var attrs [][2]string
+			for _, a := range c.spec.attrs {
+				if a[0] == "mk" {
+					continue
+				}
+				if a[0] == "id" && a[1] != "" {
+					a[1] = "reused-id"
+				}
+				attrs = append(attrs, a)
+			}
+			c.spec.attrs = attrs
+			st := c.spec.start()
+			c.err = s.SendElement(ctx, kidsReader(c.spec), st)
+			if _, hasID := c.spec.attr("id"); !hasID {
+				c.wildID = true
+			}
+			if v, _ := c.spec.attr("id"); v == "" {
+				c.wildID = true
+			}
+			c.done = true
+			t := c.twin
+			t.spec = &xSpec{space: c.spec.space, local: c.spec.local, attrs: attrs, kids: genSpec(rc, e.NS, t.marker, false, false).kids}
+			t.err = s.SendElement(ctx, kidsReader(t.spec), st)
+			t.wildID = c.wildID
+			t.done = true
+			rc.Fire("start-element-reused")
+			return
 		case "TokenWriter":
 			c.spec = genSpec(rc, e.NS, c.marker, false, false)
 			w := s.TokenWriter()
@@ -733,6 +818,13 @@ func runC05(rc *RC) {
 		hdr = `<stream:stream xmlns:stream='http://etherx.jabber.org/streams'>`
 	}
 	for _, c := range calls {
+		if c.expectFail {
+			rc.Evals["C05.c2"]++
+			if c.done && c.err == nil {
+				rc.Failf("C05.c2", "reader-error-swallowed:"+c.kind, "%s(%s): the payload reader failed but the call returned nil", c.kind, c.marker)
+			}
+			continue
+		}
 		if !c.done || c.err != nil {
 			if c.done && c.err != nil {
 				rc.Failf("C05.c2", "call-failed:"+c.kind, "%s(%s) failed without any fault injected: %v", c.kind, c.marker, c.err)
